@@ -230,6 +230,11 @@ class ValueSpecBase(ValueSpec):
         raise TypeError(f'{self!r} cannot extend {self!r}: '
                         f'no compatible type found in Union.')
       base = base_counterpart
+      # The candidate that is extended is subject to the same guard as a
+      # base that is given directly.
+      if base.frozen and (not self.frozen or self.default != base.default):
+        raise TypeError(
+            f'{self!r} cannot extend a frozen value spec: {base!r}')
 
     if not isinstance(self, (base.__class__, Enum)):
       raise TypeError(f'{self!r} cannot extend {base!r}: incompatible type.')
